@@ -243,6 +243,9 @@ def finish(prop, tier, level, coverage, assumptions, t0, violations, errors):
 def explore_check(prop, tier, tasks, rule, assumptions, extra_cov=None, level="model_checking"):
     """Run S/F-mode tasks on the pool and write evidence.  Returns exit code."""
     t0 = time.monotonic()
+    if tier == "thorough":
+        # thorough: leaving a process that waits at a poll (running jobs) never costs a preemption
+        os.environ.setdefault("JMC_FREE_AT_POLL", "1")
     cap = float(os.environ.get("JMC_TASK_CAP", "1200" if tier == "thorough" else "0"))
     if cap:
         # every task of a thorough run has a wall-clock cap; a task that hits it is reported under
